@@ -248,7 +248,7 @@ CHECKS = {
              "handler registered reentrant), C16_restore/C16_resume (both switches as before after any emission/region/try, also on propagated raises) are "
              "Qed-closed for all finite behaviour trees and all sequences of top-level statements (emissions, regions, try blocks). Tied to emit_event.py/tracer.py by 300 generated trees "
              "executed by real handlers that pyc.exec instrumented code, comparing invocation log (depth, occurrence), raises and switches; an 'escape' profile makes propagated "
-             "handler exceptions leave nested emissions and regions and be caught by a running handler or at top level, which goes on to run instrumented code. A quarter of the behaviour trees start from the `call` event of a sandbox function (system events go through tracer._sys_tracer, which applies the same rule since 601255a).",
+             "handler exceptions leave nested emissions and regions and be caught by a running handler or at top level, which goes on to run instrumented code. 40% of the behaviour trees are started outside emit_event's loop: by the `call` or the `return` event of a sandbox function (system events go through tracer._sys_tracer, which applies the same rule since 601255a) or by the after_import event of a module loaded through the import hook (import_hooks._emit_import_event).",
         note="Trusted: Coq kernel + vm_compute; hand transcription of the switch handling and gating (validated by correspondence); harness. Single thread.",
         ref="DESIGN.md section 7 C16"),
     "C17": dict(
@@ -277,7 +277,8 @@ CHECKS = {
              "is_initial_frame_stmt classifications (with and without exclusion sets) from ast.parse(source). C18_parent_exact: for every well-formed tree with distinct ids and every "
              "statement of it the parent-statement entry IS the nearest enclosing statement (`lexp`, the lexical definition), absent exactly when none encloses it; C18_outer_exact: "
              "the outer-statement queries walking up the table answer what walking up the lexical parents answers, for every typing of the nodes and every set of allowed types; "
-             "the model's walk is compared with the real is_outer_stmt / is_initial_frame_stmt for every statement of every exported tree. C18_history (model/BookHist.v): for every history of "
+             "C18_outer_any_node: asked about ANY node (a decorator, a base, a target, a with-item, a handler), the query starts from the node's containing statement - a statement of the tree that contains it - and answers as the lexical walk from there; "
+             "the model's walk is compared with the real is_outer_stmt / is_initial_frame_stmt for every node of every exported tree that has a containing statement. C18_history (model/BookHist.v): for every history of "
              "instrumentations (whole modules and single functions, any paths, collection on or off) whose new nodes are live objects not yet in the tables, every "
              "bookkeeper whose code can still run has all its ids in the tables and its lines in the line table of its module; stated over book_remove_first regenerated "
              "from AstRewriter.visit; C18_remove_after_add_refuted keeps the witness for the other order. C18_history_own_keys: since the line tables are keyed by one of the "
